@@ -1,6 +1,7 @@
 package c12
 
 import (
+	"bytes"
 	"encoding/json"
 	"fmt"
 	"strconv"
@@ -59,7 +60,7 @@ func (o objSpec) fieldOf(name string) model.FVal {
 // extra field values: upper-case spellings whose meaning changes when folded
 // to lower case (the shape of finding where-comparand-lowercased) and a few
 // more of every kind.
-var extraFieldValues = []string{`{"A":1}`, `{"a":1}`, "TRUE", "Null", "É", "é", "ABC", "abc", "aBd", "5", "5.0", "-1", "[1,2]", "[1, 2]", `"abc"`, "a\xffb"}
+var extraFieldValues = []string{"10", "1e1", "10.0", "100", "1e2", "1.00", "1e0", "Blue", "blue", "BLUE", `"Blue"`, `{"A":1}`, `{"a":1}`, "TRUE", "Null", "É", "é", "ABC", "abc", "aBd", "5", "5.0", "-1", "[1,2]", "[1, 2]", `"abc"`, "a\xffb"}
 
 func drawFieldValue(t *rapid.T) string {
 	if rapid.IntRange(0, 3).Draw(t, "extrafv?") == 0 {
@@ -328,6 +329,125 @@ func rangeToken(text string, isMin bool) (string, bool) {
 	return tok, true
 }
 
+// respellings returns texts that denote the same value as text under the
+// documented normalisation and order (same kind, neither less than the other)
+// but are written differently: number spellings (1 / 1.0 / 1e0 / 1e+00, 10 /
+// 1e1, 0 / -0 / 0.0), ASCII case variants and the JSON-quoted form of strings,
+// padding, re-spaced JSON containers. Every candidate is verified against the
+// reference before it is used.
+func respellings(text string) []string {
+	v := model.NormField(text)
+	var cands []string
+	trimmed := strings.TrimSpace(text)
+	cands = append(cands, " "+trimmed+" ", trimmed)
+	switch v.Kind {
+	case model.KNumber:
+		if v.Num == v.Num && v.Num < 1e15 && v.Num > -1e15 { // finite, not NaN
+			f := v.Num
+			cands = append(cands,
+				strconv.FormatFloat(f, 'f', -1, 64),
+				strconv.FormatFloat(f, 'e', -1, 64),
+				strconv.FormatFloat(f, 'E', -1, 64),
+				strconv.FormatFloat(f, 'f', 2, 64))
+			if f == float64(int64(f)) {
+				n := int64(f)
+				cands = append(cands, strconv.FormatInt(n, 10), strconv.FormatInt(n, 10)+".0", strconv.FormatInt(n, 10)+"e0")
+				if n != 0 && n%10 == 0 {
+					cands = append(cands, strconv.FormatInt(n/10, 10)+"e1")
+				}
+				if n == 0 {
+					cands = append(cands, "0", "-0", "0.0", "-0.0", "0e0")
+				}
+			} else {
+				cands = append(cands, strconv.FormatFloat(f*10, 'f', -1, 64)+"e-1")
+			}
+		} else {
+			cands = append(cands, "inf", "+Inf", "Infinity", "-inf", "-Infinity", "nan", "NaN")
+		}
+	case model.KString:
+		d := v.Data
+		cands = append(cands, strings.ToUpper(d), strings.ToLower(d), swapCase(d))
+		if b, err := json.Marshal(d); err == nil {
+			cands = append(cands, string(b), string(bytes.ToUpper(b[:1]))+string(b[1:]))
+		}
+	case model.KJSON:
+		cands = append(cands, strings.ReplaceAll(v.Data, ",", " , "), strings.ReplaceAll(v.Data, ":", ": "), v.Data)
+	}
+	var out []string
+	seen := map[string]bool{text: true}
+	for _, c := range cands {
+		if seen[c] {
+			continue
+		}
+		seen[c] = true
+		w := model.NormField(c)
+		if w.Kind == v.Kind && w.Same(v) && (v.Kind != model.KNumber || (v.Num == v.Num && w.Num == w.Num)) {
+			out = append(out, c)
+		}
+	}
+	return out
+}
+
+func swapCase(s string) string {
+	b := []byte(s)
+	for i, c := range b {
+		switch {
+		case c >= 'a' && c <= 'z' && i%2 == 0:
+			b[i] = c - 32
+		case c >= 'A' && c <= 'Z':
+			b[i] = c + 32
+		}
+	}
+	return string(b)
+}
+
+// respell replaces a text by an equal-but-different spelling (when one exists).
+func respell(t *rapid.T, text string) string {
+	alts := respellings(text)
+	if len(alts) == 0 {
+		return text
+	}
+	return alts[rapid.IntRange(0, len(alts)-1).Draw(t, "respell")]
+}
+
+// list / clause counts around plausible internal thresholds (small fixed
+// arrays, 8, 16, 32, 64, "large").
+var thresholdCounts = []int{1, 2, 3, 4, 5, 7, 8, 9, 15, 16, 17, 31, 32, 33, 63, 64, 65, 100, 129}
+
+func drawThresholdCount(t *rapid.T, label string, max int) int {
+	n := rapid.SampledFrom(thresholdCounts).Draw(t, label)
+	if n > max {
+		n = max
+	}
+	return n
+}
+
+// drawValueList builds a WHEREIN list of n values: stored values of the field
+// under another spelling, stored values as they are, fresh values of every
+// kind, and duplicates.
+func drawValueList(t *rapid.T, objs []objSpec, field string, n int) []bstr {
+	var vals []bstr
+	for len(vals) < n {
+		switch rapid.IntRange(0, 9).Draw(t, "lv") {
+		case 0, 1, 2, 3:
+			vals = append(vals, bstr(respell(t, drawComparand(t, objs, field))))
+		case 4, 5:
+			vals = append(vals, bstr(drawComparand(t, objs, field)))
+		case 6:
+			if len(vals) > 0 {
+				vals = append(vals, vals[rapid.IntRange(0, len(vals)-1).Draw(t, "ldup")])
+				continue
+			}
+			fallthrough
+		case 7:
+			vals = append(vals, bstr(respell(t, drawFieldValue(t))))
+		default:
+			vals = append(vals, bstr(drawFieldValue(t)))
+		}
+	}
+	return vals
+}
+
 func drawComparand(t *rapid.T, objs []objSpec, field string) string {
 	if len(objs) > 0 && rapid.IntRange(0, 9).Draw(t, "cmpfrom") < 6 {
 		o := objs[rapid.IntRange(0, len(objs)-1).Draw(t, "cmpobj")]
@@ -389,16 +509,24 @@ func drawFilter(t *rapid.T, c *ev.Collector, objs []objSpec) filtSpec {
 		}
 	case 3, 4, 5, 6: // operator
 		v := fix(drawComparand(t, objs, field))
+		if rapid.IntRange(0, 2).Draw(t, "oprespell") == 0 {
+			v = fix(respell(t, v))
+		}
 		if v == "" {
 			v = "0"
 		}
 		return filtSpec{Kind: "op", Field: field, Op: rapid.SampledFrom(ops).Draw(t, "op"), Val: bstr(v)}
 	case 7, 8: // wherein
-		n := rapid.SampledFrom([]int{0, 1, 1, 2, 3}).Draw(t, "nin")
 		f := filtSpec{Kind: "in", Field: field}
-		for i := 0; i < n; i++ {
-			f.Vals = append(f.Vals, bstr(drawComparand(t, objs, field)))
+		n := 0
+		switch rapid.IntRange(0, 9).Draw(t, "ninclass") {
+		case 0:
+		case 1, 2, 3:
+			n = rapid.IntRange(1, 3).Draw(t, "nin")
+		default:
+			n = drawThresholdCount(t, "ninthr", 200)
 		}
+		f.Vals = drawValueList(t, objs, field, n)
 		return f
 	default: // expression over the numeric fields
 		n := rapid.IntRange(1, 3).Draw(t, "nterms")
@@ -481,6 +609,12 @@ func runWhereCase(t failer, c *ev.Collector, d whereCase) (labels []string, nont
 	cross := false
 	for _, f := range d.Filters {
 		labels = append(labels, "filter:"+f.Kind)
+		if f.Kind == "in" {
+			labels = append(labels, "wherein-len:"+bucket(len(f.Vals)))
+			if f.respelledHit(d.Objs) {
+				labels = append(labels, "wherein-equal-but-differently-spelled-value")
+			}
+		}
 		if f.Kind == "range" {
 			if strings.HasPrefix(string(f.Min), "(") || strings.HasPrefix(string(f.Max), "(") {
 				labels = append(labels, "range-exclusive-bound")
@@ -505,6 +639,7 @@ func runWhereCase(t failer, c *ev.Collector, d whereCase) (labels []string, nont
 	if cross {
 		labels = append(labels, "compares-two-kinds")
 	}
+	labels = append(labels, "where-clauses:"+bucket(len(d.Filters)))
 	labels = append(labels, "base:"+d.Base)
 	sep := len(exp) > 0 && len(exp) < len(u)
 	if sep {
@@ -528,15 +663,39 @@ func flatten(fs [][]bstr) []string {
 func TestC12_Where(t *testing.T) {
 	c := ev.New("C12", "where", "exploration")
 	t.Cleanup(c.Flush)
-	c.Rule("server level: 3-25 objects (strings, points, bounds, polygons) with fields f,g holding values of every kind (numbers incl. nan/inf spellings, strings of both cases, true/false/null, JSON containers, quoted strings, padded text) or missing, n1,n2 numeric or missing; base query SCAN/SEARCH/WITHIN/INTERSECTS (whole world)/NEARBY; 1-2 filters out of WHERE f min max (numbers, +-inf, '(' exclusive bounds, JSON-quoted strings, JSON containers), WHERE f op v for the six operators, WHEREIN f n v.. (n = 0..3), WHERE \"n1 op num (&&,||) ..\" (numeric expression class, evaluated by a small evaluator with && binding tighter). Oracle: filtered IDS == [id in the unfiltered reply : every filter holds under model.NormField / Less with missing = 0]; DESC == reverse; COUNT == len(IDS); LIMIT prefix/min; CURSOR c COUNT == len(CURSOR c IDS). Comparands are drawn mostly from the stored values so equality and boundary cases occur. Non-trivial: the filters keep some but not all items, some comparison is between two different kinds, and the collection mixes strings and geometries; distinct by (filters, field values).")
+	c.Rule("server level: 3-25 objects (strings, points, bounds, polygons) with fields f,g holding values of every kind (numbers incl. nan/inf spellings, strings of both cases, true/false/null, JSON containers, quoted strings, padded text) or missing, n1,n2 numeric or missing; base query SCAN/SEARCH/WITHIN/INTERSECTS (whole world)/NEARBY; 1-3 filters (1 in 8 cases: a clause count from the same threshold set up to 33, extra clauses mostly repeating an earlier one in another spelling) out of WHERE f min max (numbers, +-inf, '(' exclusive bounds, JSON-quoted strings, JSON containers), WHERE f op v for the six operators, WHEREIN f n v.. (n = 0..3, or n drawn from {1-5,7-9,15-17,31-33,63-65,100,129}: stored values under an equal-but-different spelling - 1/1.0/1e0/1e+00, 10/1e1, 0/-0/0.0, ASCII case variants, JSON-quoted strings, padding, re-spaced JSON - stored values as they are, fresh values of every kind, duplicates), WHERE \"n1 op num (&&,||) ..\" (numeric expression class, evaluated by a small evaluator with && binding tighter). Oracle: filtered IDS == [id in the unfiltered reply : every filter holds under model.NormField / Less with missing = 0]; DESC == reverse; COUNT == len(IDS); LIMIT prefix/min; CURSOR c COUNT == len(CURSOR c IDS). Comparands are drawn mostly from the stored values so equality and boundary cases occur. Non-trivial: the filters keep some but not all items, some comparison is between two different kinds, and the collection mixes strings and geometries; distinct by (filters, field values).")
 	c.Assume("expression-mode WHERE follows JavaScript semantics for numeric comparisons and && / || precedence (tidwall/expr); only that numeric class is generated")
 	c.Note("impl-mirrored: NaN compares as equal to every number (neither is less); WHERE on the reserved names z / properties.* is not generated")
 	ev.Rapid("where", ev.Pick(5000, 50000))
 	rapid.Check(t, func(rt *rapid.T) {
 		objs := drawObjects(rt, 3, 25, 8)
 		d := whereCase{Objs: objs, Base: rapid.SampledFrom([]string{"SCAN", "SCAN", "SEARCH", "WITHIN", "INTERSECTS", "NEARBY"}).Draw(rt, "base")}
-		nf := rapid.SampledFrom([]int{1, 1, 1, 2}).Draw(rt, "nfilters")
+		nf := rapid.SampledFrom([]int{1, 1, 1, 1, 2, 2, 3, 0}).Draw(rt, "nfilters")
+		if nf == 0 {
+			nf = drawThresholdCount(rt, "nfiltersthr", 33)
+		}
 		for i := 0; i < nf; i++ {
+			if i >= 2 && rapid.IntRange(0, 9).Draw(rt, "repeatfilter") < 6 {
+				// a conjunction of many independent filters is almost always
+				// empty: most extra clauses repeat an earlier one, with its
+				// values spelled differently
+				f := d.Filters[rapid.IntRange(0, len(d.Filters)-1).Draw(rt, "whichfilter")]
+				switch f.Kind {
+				case "in":
+					g := f
+					g.Vals = nil
+					for _, v := range f.Vals {
+						g.Vals = append(g.Vals, bstr(respell(rt, string(v))))
+					}
+					f = g
+				case "op":
+					if !ev.KnownActive(findLower) || !lowerSensitive(respell(rt, string(f.Val))) {
+						f.Val = bstr(respell(rt, string(f.Val)))
+					}
+				}
+				d.Filters = append(d.Filters, f)
+				continue
+			}
 			d.Filters = append(d.Filters, drawFilter(rt, c, objs))
 		}
 		d.Limit = rapid.IntRange(0, len(objs)+1).Draw(rt, "limit")
@@ -659,7 +818,7 @@ func drawArea(t *rapid.T, cmd string) []bstr {
 func TestC12_Count(t *testing.T) {
 	c := ev.New("C12", "count", "exploration")
 	t.Cleanup(c.Flush)
-	c.Rule("server level: 0-60 objects (strings, points, bounds, polygons spread over +-20 degrees, below the default limit of 100 so that no LIMIT means the whole result on both sides); query SCAN/SEARCH/WITHIN/INTERSECTS/NEARBY with a random area (BOUNDS, CIRCLE, polygon OBJECT; NEARBY POINT with or without radius), no filter / MATCH * / MATCH o0* / MATCH o?[1-3] / WHERE n1 range / WHEREIN n1, optional LIMIT 1..n+1, optional CURSOR, optional DESC. Oracle: the COUNT reply == number of ids the IDS reply of the same argument list holds. Non-trivial: mixed collection, result non-empty and smaller than the collection, and a LIMIT, CURSOR or filter is present or the command is not SCAN; distinct by (argument list, object kinds and positions).")
+	c.Rule("server level: 0-60 objects (strings, points, bounds, polygons spread over +-20 degrees, below the default limit of 100 so that no LIMIT means the whole result on both sides); query SCAN/SEARCH/WITHIN/INTERSECTS/NEARBY with a random area (BOUNDS, CIRCLE, polygon OBJECT; NEARBY POINT with or without radius), no filter / MATCH * / MATCH o0* / MATCH o?[1-3] / WHERE n1 range / WHEREIN n1 (2 values, or 1..129 values around the thresholds 8/16/32/64 in other spellings), optional LIMIT 1..n+1, optional CURSOR, optional DESC. Oracle: the COUNT reply == number of ids the IDS reply of the same argument list holds. Non-trivial: mixed collection, result non-empty and smaller than the collection, and a LIMIT, CURSOR or filter is present or the command is not SCAN; distinct by (argument list, object kinds and positions).")
 	ev.Rapid("count", ev.Pick(5000, 50000))
 	rapid.Check(t, func(rt *rapid.T) {
 		objs := drawObjects(rt, 0, ev.Pick(40, 60), 20)
@@ -679,6 +838,19 @@ func TestC12_Count(t *testing.T) {
 			qu.Filters = [][]bstr{{"WHERE", "n1", bstr(rapid.SampledFrom([]string{"-inf", "0", "(0", "1"}).Draw(rt, "wmin")), bstr(rapid.SampledFrom([]string{"+inf", "2", "(2", "10"}).Draw(rt, "wmax"))}}
 		case 4:
 			qu.Filters = [][]bstr{{"WHEREIN", "n1", "2", "0", bstr(rapid.SampledFrom(numericValues).Draw(rt, "inv"))}}
+		case 5:
+			// a list around the plausible internal thresholds, values spelled
+			// differently from the stored ones
+			n := drawThresholdCount(rt, "ninthr", 200)
+			f := []bstr{"WHEREIN", "n1", bstr(strconv.Itoa(n))}
+			for i := 0; i < n; i++ {
+				v := rapid.SampledFrom(numericValues).Draw(rt, "inv")
+				if rapid.Bool().Draw(rt, "invrespell") {
+					v = respell(rt, v)
+				}
+				f = append(f, bstr(v))
+			}
+			qu.Filters = [][]bstr{f}
 		}
 		d := countCase{Objs: objs, Q: qu}
 		if rapid.Bool().Draw(rt, "limit?") {
@@ -707,4 +879,47 @@ func TestC12_Count(t *testing.T) {
 			}
 		}
 	})
+}
+
+func bucket(n int) string {
+	switch {
+	case n <= 5:
+		return strconv.Itoa(n)
+	case n < 15:
+		return "6-14"
+	case n <= 17:
+		return strconv.Itoa(n)
+	case n < 31:
+		return "18-30"
+	case n <= 33:
+		return strconv.Itoa(n)
+	case n < 63:
+		return "34-62"
+	case n <= 65:
+		return strconv.Itoa(n)
+	}
+	return "66+"
+}
+
+// respelledHit: some object's field equals a listed value without being
+// textually identical to any equal listed value (only an order-aware
+// comparison finds it).
+func (f filtSpec) respelledHit(objs []objSpec) bool {
+	for _, o := range objs {
+		v := o.fieldOf(f.Field)
+		equal, identical := false, false
+		for _, x := range f.Vals {
+			w := model.NormField(string(x))
+			if w.Kind == v.Kind && w.Same(v) {
+				equal = true
+				if w.Data == v.Data {
+					identical = true
+				}
+			}
+		}
+		if equal && !identical {
+			return true
+		}
+	}
+	return false
 }
